@@ -104,7 +104,13 @@ fn property_key(key: &str) -> String {
     if is_identifier {
         key.to_string()
     } else {
-        format!("\"{}\"", key.replace('\\', "\\\\").replace('"', "\\\""))
+        format!(
+            "\"{}\"",
+            key.replace('\\', "\\\\")
+                .replace('"', "\\\"")
+                .replace('\n', "\\n")
+                .replace('\r', "\\r")
+        )
     }
 }
 
